@@ -103,6 +103,7 @@ func runC01(r *Run, rng *Rng, thorough bool) {
 	r.extra["nonconformant_cases"] = nInvalid
 	extValidate(r, rng, map[bool]int{false: 300, true: 6000}[thorough])
 	surfaceValidators(r, rng, map[bool]int{false: 400, true: 20000}[thorough])
+	revalidate(r, rng, map[bool]int{false: 200, true: 5000}[thorough])
 }
 
 // wantVal: the value getter g must return on a conformant claim.
